@@ -30,6 +30,11 @@ class _Continue(Exception):
     pass
 
 
+def _undecorated_other(node):
+    """the function carries a decorator other than staticmethod (its value through the class is then not the plain function)"""
+    return any(ast.unparse(d) != "staticmethod" for d in getattr(node, "decorator_list", []))
+
+
 class Opaque:
     """A value we do not evaluate (e.g. a construct declaration, a compiled regex, a function object)."""
 
@@ -41,6 +46,9 @@ class Opaque:
 
 
 import math as _math
+
+# pure functions / constant tables of the calendar module
+SAFE_CALENDAR = {"mdays", "isleap", "leapdays", "monthrange", "weekday", "MONDAY", "TUESDAY", "WEDNESDAY", "THURSDAY", "FRIDAY", "SATURDAY", "SUNDAY", "January", "February"}
 
 # pure functions / constants of the math module: applied to plain numbers they are evaluated, their exceptions (OverflowError, ValueError) are the program's
 SAFE_MATH = {"pow", "floor", "ceil", "sqrt", "isqrt", "log", "log2", "log10", "exp", "fabs", "trunc", "gcd", "copysign", "isnan", "isinf", "isfinite", "fmod", "ldexp", "pi", "e", "inf", "nan",
@@ -410,7 +418,12 @@ class ConstEval:
             it = self.eval(s.iter, env, mod)
             if isinstance(it, Opaque):
                 raise NotConstant("iteration over opaque value")
+            # a dictionary / set (or a view of one) must keep its size while it is iterated: the next step of the iteration raises RuntimeError otherwise
+            sized = it if isinstance(it, (dict, set)) else getattr(it, "mapping", None) if type(it).__name__ in ("dict_keys", "dict_items", "dict_values") else None
+            n0 = len(sized) if sized is not None else None
             for x in list(it):
+                if n0 is not None and len(sized) != n0:
+                    self.definite_raise("RuntimeError", f"{'dictionary' if not isinstance(sized, set) else 'Set'} changed size during iteration")
                 self.assign(s.target, x, env, mod)
                 try:
                     self.exec_block(s.body, env, mod)
@@ -419,6 +432,8 @@ class ConstEval:
                 except _Continue:
                     continue
             else:
+                if n0 is not None and len(sized) != n0:
+                    self.definite_raise("RuntimeError", f"{'dictionary' if not isinstance(sized, set) else 'Set'} changed size during iteration")
                 self.exec_block(s.orelse, env, mod)
             return
         if isinstance(s, ast.While):
@@ -565,9 +580,17 @@ class ConstEval:
                 raise NotConstant(f"{base[1]}.{e.attr}")
             if isinstance(base, Opaque) and base.what.startswith("class "):
                 m, c = base.what[6:].split(".", 1)
+                fm_ = self.M.find_method((m, c), e.attr) if (m, c) in self.M.classes else None
+                if fm_ is not None and fm_.kind in ("static", "method") and not getattr(fm_, "memo", None) and not _undecorated_other(fm_.node):
+                    # a static method (or a plain function of the class) taken as a value through the class
+                    return FuncRef(fm_.mod, fm_.node)
                 return self.class_const(m, c, e.attr)
             if isinstance(base, Opaque) and base.what == "external math" and e.attr in SAFE_MATH:
                 return getattr(_math, e.attr)
+            if isinstance(base, Opaque) and base.what == "external calendar" and e.attr in SAFE_CALENDAR:
+                import calendar as _calendar
+                v_ = getattr(_calendar, e.attr)
+                return list(v_) if isinstance(v_, list) else v_
             if isinstance(base, Opaque):
                 raise NotConstant(f"attribute of {base}")
             t = type(base)
